@@ -23,6 +23,7 @@ func (consumer *Consumer) Loop() {
 		// read the step before testing the queues: the close step is announced
 		// after the last item was queued, so "closed, then empty" means done
 		step := consumer.lifecycle.Step()
+		verifPoint("consumer.between")
 		if len(consumer.loopData.chans.dirChan) == 0 &&
 			len(consumer.loopData.chans.fileChan) == 0 {
 			if step == StepClose {
